@@ -148,7 +148,7 @@ def _try_cvc5(theory, ob, timeout_ms):
     import subprocess
     import tempfile
     try:
-        smt = core.to_smt2(theory, ob, with_known=False if ob.known is not None else None)
+        smt = core.to_smt2(theory, ob, with_known=False if ob.known else None)
         with tempfile.NamedTemporaryFile("w", suffix=".smt2", delete=False) as fh:
             fh.write("(set-logic ALL)\n" + smt)
             path = fh.name
@@ -157,7 +157,7 @@ def _try_cvc5(theory, ob, timeout_ms):
                            capture_output=True, text=True, timeout=timeout_ms / 1000 + 5)
         os.unlink(path)
         ans = p.stdout.strip().splitlines()[0] if p.stdout.strip() else ""
-        if ans == "unsat" and ob.known is None:
+        if ans == "unsat" and not ob.known:
             ob.verdict = "proved"
             ob.backend = "cvc5-1.0.3"
             ob.seconds += time.time() - t0
@@ -276,12 +276,12 @@ def run_check(prop, units, tier, seed, level, technique_text, trusted_base, repl
         exit_code = 1
     reported = set()
     for o in known:
-        fid = o.get("finding")
-        if fid in reported:
-            continue
-        reported.add(fid)
-        desc = next((f["what"] for f in open_f if f["id"] == fid), "")
-        lines.append("KNOWN-FINDING: property=%s %s: %s (obligation %s)" % (prop, fid, desc, o["name"]))
+        for fid in (o.get("finding") or "").split("+"):
+            if fid in reported:
+                continue
+            reported.add(fid)
+            desc = next((f["what"] for f in open_f if f["id"] == fid), "")
+            lines.append("KNOWN-FINDING: property=%s %s: %s (obligation %s)" % (prop, fid, desc, o["name"]))
     if exit_code == 0 and errors:
         exit_code = 3
         for r in errors:
